@@ -8,6 +8,7 @@ FLOOR_ITEMS = 1482   # counted on the pinned tree
 
 
 def run(chk):
+    chk.level = "translation_validation"
     d = expand_facts()
     if "error" in d:
         chk.rule("R20-expand", "canonical item diff fresh expansion vs shipped", 0, floor=1)
